@@ -41,12 +41,21 @@ extern "C" void vp_thread2() {   // thief
 #endif
   for (int i = 0; i < NSTEAL; ++i) { int* r = nullptr; if (d->try_steal(r)) { stolen[ngot_thief++] = r; vp_cover(2); } }
 }
+#ifdef THIEF2
+static int* stolen2[4]; static unsigned ngot_thief2;
+extern "C" void vp_thread3() {   // second thief
+  for (int i = 0; i < NSTEAL; ++i) { int* r = nullptr; if (d->try_steal(r)) { stolen2[ngot_thief2++] = r; vp_cover(3); } }
+}
+#endif
 extern "C" void vp_final() {
   // drain what is left, then: every pushed item exactly once, nothing else (identity comparisons only)
   int* r = nullptr;
   unsigned n = ngot_owner;
   while (d->try_pop(r)) got[n++] = r;
   unsigned total = n + ngot_thief;
+#ifdef THIEF2
+  total += ngot_thief2;
+#endif
   unsigned expect = NPUSH;
 #ifdef PREPUSH
   expect += PREPUSH;
@@ -61,6 +70,9 @@ extern "C" void vp_final() {
     unsigned c = 0;
     for (unsigned i = 0; i < n; ++i) c += (got[i] == &items[j]);
     for (unsigned i = 0; i < ngot_thief; ++i) c += (stolen[i] == &items[j]);
+#ifdef THIEF2
+    for (unsigned i = 0; i < ngot_thief2; ++i) c += (stolen2[i] == &items[j]);
+#endif
     vp_assert(c == 1, 20 + j);
   }
 }
